@@ -65,7 +65,8 @@ SPECIAL = {"inf": "verif_inf()", "-inf": "verif_ninf()", "nan": "verif_nan()"}
 DECLS = ("fn verif_idf(x: float) -> float = x\n"
          "fn verif_inf() -> float { let m = verif_idf(1.7976931348623157e308)\n m * 2.0 }\n".replace("1.7976931348623157e308", lit(1.7976931348623157e308))
          + "fn verif_ninf() -> float { 0.0 - verif_inf() }\n"
-         "fn verif_nan() -> float { verif_inf() - verif_inf() }\n")
+         "fn verif_nan() -> float { verif_inf() - verif_inf() }\n"
+         "fn verif_bit(x: bool) -> string = if x { \"1\" } else { \"0\" }\n")
 
 
 def spell(v, form_is_lit):
@@ -203,13 +204,25 @@ def cmp_cases(ctx, F):
     cases = []
     for a in vals:
         for b in vals:
-            for f in ("vv", "vl", "lv", "ll"):
-                la = f in ("ll", "lv")
-                lb = f in ("ll", "vl")
+            # operand form x what consumes the result: an `if` (a conditional jump), a local it is
+            # stored into, a call argument, an array element
+            for f in ("vv", "vl", "lv", "ll", "vv:let", "vl:let", "lv:let", "vl:arg", "vv:elem", "vl:elem"):
+                of, _, use = f.partition(":")
+                la = of in ("ll", "lv")
+                lb = of in ("ll", "vl")
                 if (la and isinstance(a, str)) or (lb and isinstance(b, str)):
                     continue
                 A, B = spell(a, la), spell(b, lb)
-                body = "\n".join("print(if %s %s %s { \"1\" } else { \"0\" })" % (A, op, B) for op in ("<", "<=", ">", ">=", "==", "!=")) + "\nprintln(\"\")"
+                ops = ("<", "<=", ">", ">=", "==", "!=")
+                if use == "":
+                    lines = ["print(if %s %s %s { \"1\" } else { \"0\" })" % (A, op, B) for op in ops]
+                elif use == "let":
+                    lines = ["let r%d = %s %s %s\nprint(if r%d { \"1\" } else { \"0\" })" % (i, A, op, B, i) for i, op in enumerate(ops)]
+                elif use == "arg":
+                    lines = ["print(verif_bit(%s %s %s))" % (A, op, B) for op in ops]
+                else:
+                    lines = ["let rs = [%s]" % ", ".join("%s %s %s" % (A, op, B) for op in ops), "for r in rs { print(verif_bit(r)) }"]
+                body = "{\n" + "\n".join(lines) + "\nprintln(\"\")\n}"
                 cases.append(Case("cmp form=%s a=%s b=%s" % (f, key_of(a), key_of(b)), body, ("any",), DECLS, meta=(f, key_of(a), key_of(b))))
     return cases
 
